@@ -20,7 +20,7 @@ RULE = ("pairs (start, end = start * delta) with relative rotation angle log-uni
         "the two atan2 angles; out-of-range s raises (3-D matrix and quaternion routes); vector s = map over scalars; all "
         "routes agree. Non-trivial: relative angle < 1e-6 or > pi/2, or negative quaternion dot product, or s within 1e-9 of "
         "an end, or vector s.")
-RULE = RULE + probes.RULE_TEXT + (probes.AUG_TEXT if PROPERTY_ID in probes.AUG_PROPS else "") + probes.VARIANT_TEXT
+RULE = RULE + probes.RULE_TEXT + (probes.AUG_TEXT if PROPERTY_ID in probes.AUG_PROPS else "") + probes.VARIANT_TEXT + probes.OWN_TEXT
 ASSUMPTIONS = ["tolerance 1e-6 (relative to max(1,|t|) for translations), validity 1e-9",
                "antipodal quaternion pairs (|dot| > 0.999 with the long arc) are outside the domain and skipped (counted under label antipodal_skipped)",
                "2-D routes are not required to reject s outside [0,1]"]
@@ -37,7 +37,7 @@ def s_values():
 
 def rel_angle():
     return st.one_of(gens.logmag(-12, 0.49), gens.logmag(-6, 0.49).map(lambda d: PI - d), gens.fl(1e-3, PI - 1e-6), gens.fl(PI / 2, PI - 1e-6),
-                     gens.logmag(-6.5, -3))     # extra weight where a tolerance-sized shortcut would bite
+                     gens.logmag(-6.5, -3), gens.logmag(-6, -5.3))     # extra weight where a tolerance-sized shortcut would bite (just above the stated 1e-6)
 
 
 def s_interp3():
@@ -60,7 +60,10 @@ def s_intdtype():
     q = st.integers(-2, 2)
     return st.fixed_dictionaries({"kind": st.just("intdtype"), "k0": q, "k1": q, "t0": st.lists(st.integers(-9, 9), min_size=3, max_size=3),
                                   "t1": st.lists(st.integers(-9, 9), min_size=3, max_size=3), "s": s_values(),
-                                  "int_start": st.booleans(), "int_end": st.booleans(), "has_start": st.booleans(), "dim": st.sampled_from([2, 3])})
+                                  "int_start": st.booleans(), "int_end": st.booleans(), "has_start": st.booleans(), "dim": st.sampled_from([2, 3]),
+                                  # element type of the integer-typed poses; translations are then spread over the range of that type
+                                  "itype": st.sampled_from([None, None, "int8", "int16", "int32", "int64"]),
+                                  "f0": st.lists(gens.fl(-1, 1), min_size=3, max_size=3), "f1": st.lists(gens.fl(-1, 1), min_size=3, max_size=3)})
 
 
 def _intdtype(case):
@@ -76,9 +79,17 @@ def _intdtype(case):
         R3 = np.eye(3)
         R3[:2, :2] = R2
         return refs.rt(R3, np.array(t, dtype=float))
-    T0f, T1f = pose(case["k0"], case["t0"]), pose(case["k1"], case["t1"])
-    T0 = T0f.astype(int) if case["int_start"] else T0f.copy()
-    T1 = T1f.astype(int) if case["int_end"] else T1f.copy()
+    it = case.get("itype")
+    if it:
+        hi = float(np.iinfo(it).max) if it != "int64" else 2.0 ** 40
+        t0 = [int(round(x * hi * 0.97)) for x in case["f0"]]
+        t1 = [int(round(x * hi * 0.97)) for x in case["f1"]]
+        c.feat(itype=it)
+    else:
+        t0, t1 = case["t0"], case["t1"]
+    T0f, T1f = pose(case["k0"], t0), pose(case["k1"], t1)
+    T0 = T0f.astype(it or int) if case["int_start"] else T0f.copy()
+    T1 = T1f.astype(it or int) if case["int_end"] else T1f.copy()
     f = b.trinterp2 if dim == 2 else b.trinterp
     start = T0 if case["has_start"] else None
     ok1, got = c.lib("int", f, start, T1, s)
@@ -93,7 +104,7 @@ def _intdtype(case):
 
 
 def check_case(case):
-    if case.get("kind") in ("hist", "aug", "variant"):
+    if case.get("kind") in ("hist", "aug", "variant", "own"):
         return probes.run(case, PROPERTY_ID)
     return {"interp3": _interp3, "interp2": _interp2, "intdtype": _intdtype}[case["kind"]](case)
 
@@ -296,7 +307,7 @@ def _interp2(case):
 
 
 def classify(case):
-    if case.get("kind") in ("hist", "aug", "variant"):
+    if case.get("kind") in ("hist", "aug", "variant", "own"):
         return probes.classify(case)
     k = case["kind"]
     if k == "intdtype":
